@@ -33,7 +33,12 @@ def jobs(tier, seed):
         # a second constraint that takes the unary-slack (log_trick=False) special forms on a model that already owns ancillas
         for rel, seq in [('lt', ['le_sum_nolog']), ('ge', ['gt_lin']), ('le', ['ne_nolog'])]:
             add('seq/%s+%s/B1/nolog' % (rel, '+'.join(seq)), 'make_sequence', dict(rel=rel, B=1, log=False, seq=seq), 200)
+        # a trivially satisfied constraint after a recorded one of the relation it delegates to
+        for rel, seq in [('le', ['lt_trivial']), ('ge', ['gt_trivial']), ('lt', ['le_trivial', 'ge_trivial'])]:
+            add('seq/%s+%s/B1/trivial' % (rel, '+'.join(seq)), 'make_sequence', dict(rel=rel, B=1, log=True, seq=seq), 200)
     else:
+        for rel, seq in [('le', ['lt_trivial']), ('ge', ['gt_trivial']), ('lt', ['le_trivial', 'ge_trivial']), ('le', ['gt_trivial', 'lt_trivial']), ('gt', ['ge_trivial'])]:
+            add('seq/%s+%s/B2/trivial' % (rel, '+'.join(seq)), 'make_sequence', dict(rel=rel, B=2, log=True, seq=seq), 1500)
         for rel in RELS:
             for log in ([True] if rel == 'eq' else [True, False]):
                 add('single/%s/log=%d/n2/dense/B3' % (rel, log), 'make_single', dict(rel=rel, B=3, log=log, bmode='none', n=2, shape='dense'), 1500)
